@@ -149,6 +149,30 @@ theorem fmt_domain (v : In) : (∃ c, formatCard v = .ok c) ↔ Acceptable v := 
         · simp [hi, ht']
         · simp [hi, ht']
 
+/-- A tuple or list of any length other than 2 (and not empty) is refused whatever it holds -
+    in particular `(None,)`, `(0,)`, `[None, None, None]`, whose items are all falsy - and the
+    previous setting is kept.  (Seeded change C09-M merged the "no bound" edge case of pairs into
+    the emptiness test and accepted exactly these.) -/
+theorem wrong_length_refused (t : Bool) (xs : List In) (old : Card) (hne : xs ≠ [])
+    (hlen : xs.length ≠ 2) :
+    formatCard (.seq t xs) = .valueError ∧ setCard old (.seq t xs) = (old, false) := by
+  have h : formatCard (.seq t xs) = .valueError := by
+    unfold formatCard
+    have ht : (In.seq t xs).truthy = true := by
+      cases xs with
+      | nil => exact absurd rfl hne
+      | cons a as => rfl
+    simp only [ht, Bool.not_true, Bool.false_eq_true, ↓reduceIte]
+    split
+    · rename_i t' a b heq
+      cases heq
+      exact absurd rfl hlen
+    · rfl
+  exact ⟨h, set_refused_keeps old _ h⟩
+
+example : formatCard (.seq true [.nul]) = .valueError := (wrong_length_refused true [.nul] none (by simp) (by simp)).1
+example : formatCard (.seq false [.int 0, .int 0, .int 0]) = .valueError := by decide
+
 /-- A single positive integer sets the maximum. -/
 theorem fmt_single (i : Int) (h : 0 < i) : formatCard (.int i) = .ok (some (none, some i)) := by
   have : (i != 0) = true := by simp; omega
